@@ -1,1 +1,205 @@
 // Kani contract harnesses for /repo/arrow-buffer/src/builder/mod.rs (child module: sees private items via super::)
+use super::*;
+#[path = "/verif/kani/support/spec.rs"]
+mod spec;
+#[allow(unused_imports)]
+use spec::*;
+
+// ---------------------------------------------------------------------------------------------
+// Shared harness helpers (spec side). Nothing here calls the code under test.
+// ---------------------------------------------------------------------------------------------
+
+/// N <= 64 fully symbolic bytes built without a loop (lets a harness use a small unwind bound).
+#[allow(dead_code)]
+fn any_bytes<const N: usize>() -> [u8; N] {
+    let w: (u128, u128, u128, u128) = (kani::any(), kani::any(), kani::any(), kani::any());
+    let full: [u8; 64] = unsafe { std::mem::transmute(w) };
+    let mut out = [0u8; N];
+    out.copy_from_slice(&full[..N]);
+    out
+}
+#[allow(dead_code)]
+fn mask(b: bool) -> u64 { if b { u64::MAX } else { 0 } }
+
+// STUB (listed): `core::ptr::align_offset`, the single address-dependent step of
+// `<[u8]>::align_to::<u64>()`. CBMC cannot constant-fold an address during symbolic execution, so
+// without it every slice length after `align_to` is symbolic (measured: out of memory / > 5 min).
+// The stub returns the exact value of the real function for a pointer whose address is congruent
+// to the harness-supplied skew modulo 8, and it *asserts* that congruence on the real address, so
+// nothing is assumed about the allocator; the rest of the real `align_to` runs unchanged.
+// The k-th call uses ALIGN_SKEWS[k] (control flow is concrete, so k is concrete).
+#[allow(dead_code)]
+static mut ALIGN_SKEWS: [usize; 6] = [0; 6];
+#[allow(dead_code)]
+static mut ALIGN_CALLS: usize = 0;
+#[allow(dead_code)]
+fn set_skews(s: [usize; 6]) { unsafe { ALIGN_SKEWS = s; ALIGN_CALLS = 0; } }
+/// builder for the list of expected `align_to` calls of one harness (bookkeeping only: a wrong
+/// prediction makes the stub's address assertion fail, it can never hide a violation)
+#[derive(Clone, Copy)]
+#[allow(dead_code)]
+struct Skews { s: [usize; 6], n: usize }
+#[allow(dead_code)]
+fn skews() -> Skews { Skews { s: [0; 6], n: 0 } }
+#[allow(dead_code)]
+impl Skews {
+    /// one `align_to` call on a slice that starts `sk` bytes past an 8-byte aligned address
+    fn raw(mut self, sk: usize) -> Self { self.s[self.n] = sk % 8; self.n += 1; self }
+    /// the `align_to` call of `UnalignedBitChunk::new(bytes, off, len)` (made only when the addressed
+    /// byte range is longer than 16 bytes), `bytes` starting `sk` bytes past an 8-byte aligned address
+    fn ubc(self, sk: usize, off: usize, len: usize) -> Self {
+        if len > 0 && (len + off % 8 + 7) / 8 > 16 { self.raw(sk + off / 8) } else { self }
+    }
+    fn install(self) { unsafe { ALIGN_SKEWS = self.s; ALIGN_CALLS = 0; } }
+}
+#[allow(dead_code)]
+unsafe fn stub_align_offset<T>(p: *const T, a: usize) -> usize {
+    assert!(std::mem::size_of::<T>() == 1 && a == 8);
+    let k = unsafe { ALIGN_CALLS };
+    assert!(k < 6);
+    unsafe { ALIGN_CALLS = k + 1 };
+    let skew = unsafe { ALIGN_SKEWS[k] } % a;
+    assert!((p as usize) % a == skew);
+    (a - skew) % a
+}
+macro_rules! inst {
+    ($name:ident, $unwind:expr, $call:expr) => {
+        #[kani::proof]
+        #[kani::unwind($unwind)]
+        #[kani::stub(core::ptr::align_offset, stub_align_offset)]
+        fn $name() { $call }
+    };
+}
+
+const MAXM: usize = 96;
+struct Model { v: [i32; MAXM], n: usize }
+impl Model {
+    fn new() -> Self { Model { v: [0; MAXM], n: 0 } }
+    fn push(&mut self, x: i32) { self.v[self.n] = x; self.n += 1; }
+    fn push_n(&mut self, k: usize, x: i32) { let mut i = 0; while i < k { self.push(x); i += 1; } }
+    fn push_slice(&mut self, s: &[i32]) { let mut i = 0; while i < s.len() { self.push(s[i]); i += 1; } }
+    fn truncate(&mut self, k: usize) { if k <= self.n { self.n = k; } }
+}
+fn check(b: &BufferBuilder<i32>, m: &Model) {
+    assert!(b.len() == m.n && b.is_empty() == (m.n == 0) && b.capacity() >= m.n);
+    assert!(b.as_slice().len() == m.n);
+    if m.n > 0 {
+        let i: usize = kani::any();
+        kani::assume(i < m.n);
+        assert!(b.as_slice()[i] == m.v[i]);
+    }
+}
+fn check_finish(b: &mut BufferBuilder<i32>, m: &Model) {
+    let out: Buffer = b.finish();
+    assert!(out.len() == 4 * m.n);
+    if m.n > 0 {
+        let i: usize = kani::any();
+        kani::assume(i < m.n);
+        let s = out.as_slice();
+        assert!(i32::from_le_bytes([s[4 * i], s[4 * i + 1], s[4 * i + 2], s[4 * i + 3]]) == m.v[i]);
+    }
+    assert!(b.len() == 0 && b.is_empty());
+}
+
+fn seq_bb<const CAP: usize, const N1: usize, const K: usize, const T: usize, const ADV: usize>() {
+    let (x, y, z): (i32, i32, i32) = (kani::any(), kani::any(), kani::any());
+    let s: [i32; K] = kani::any();
+    set_skews([0; 6]);
+    let mut b = BufferBuilder::<i32>::new(CAP);
+    assert!(b.len() == 0 && b.capacity() >= CAP);
+    let mut m = Model::new();
+    b.append(x); m.push(x);
+    b.append_n(N1, y); m.push_n(N1, y);
+    b.append_slice(&s); m.push_slice(&s);
+    check(&b, &m);
+    b.truncate(T); m.truncate(T);
+    check(&b, &m);
+    b.advance(ADV); m.push_n(ADV, 0);
+    b.append(z); m.push(z);
+    check(&b, &m);
+    check_finish(&mut b, &m);
+    kani::cover!(x == -1 && y == i32::MIN && z == 7);
+}
+// Contract (C01) BufferBuilder::<i32>::{new, append, append_n, append_slice, truncate, advance, len,
+// as_slice, capacity, finish}: after new(cap); append(x); append_n(n1, y); append_slice(s); truncate(t);
+// advance(a); append(z) (all values symbolic) the builder is observably the Vec<i32> built by the
+// same pushes, Vec::truncate (no effect when t > len), `a` pushes of 0, one push; finish returns
+// exactly 4*len bytes holding those values in little-endian order (across the 64-byte reallocation
+// boundary) and leaves an empty builder.
+// @unit name=bufb_i32_0_3_4_5_2 props=C01 kind=bounded bound=ops=6_shape_(cap,n1,slice_len,truncate_to,advance)=(0,3,4,5,2)_values_symbolic fns=BufferBuilder::append,BufferBuilder::append_n,BufferBuilder::append_slice,BufferBuilder::truncate,BufferBuilder::advance,BufferBuilder::finish tier=thorough timeout=400 note=not_confirmed_under_load
+inst!(bufb_i32_0_3_4_5_2, 13, seq_bb::<0, 3, 4, 5, 2>());
+// @unit name=bufb_i32_2_14_3_17_1 props=C01 kind=bounded bound=ops=6_shape_(cap,n1,slice_len,truncate_to,advance)=(2,14,3,17,1)_values_symbolic fns=BufferBuilder::append,BufferBuilder::append_n,BufferBuilder::append_slice,BufferBuilder::truncate,BufferBuilder::advance,BufferBuilder::finish tier=thorough timeout=400 note=not_confirmed_under_load
+inst!(bufb_i32_2_14_3_17_1, 22, seq_bb::<2, 14, 3, 17, 1>());
+// @unit name=bufb_i32_0_0_0_0_0 props=C01 kind=bounded bound=ops=6_shape_(cap,n1,slice_len,truncate_to,advance)=(0,0,0,0,0)_values_symbolic fns=BufferBuilder::append,BufferBuilder::append_n,BufferBuilder::append_slice,BufferBuilder::truncate,BufferBuilder::advance,BufferBuilder::finish tier=thorough timeout=400 note=not_confirmed_under_load
+inst!(bufb_i32_0_0_0_0_0, 12, seq_bb::<0, 0, 0, 0, 0>());
+// @unit name=bufb_i32_4_20_9_40_3 props=C01 kind=bounded bound=ops=6_shape_(cap,n1,slice_len,truncate_to,advance)=(4,20,9,40,3)_values_symbolic fns=BufferBuilder::append,BufferBuilder::append_n,BufferBuilder::append_slice,BufferBuilder::truncate,BufferBuilder::advance,BufferBuilder::finish tier=thorough timeout=400 note=not_confirmed_under_load
+inst!(bufb_i32_4_20_9_40_3, 36, seq_bb::<4, 20, 9, 40, 3>());
+// @unit name=bufb_i32_0_17_2_16_20 props=C01 kind=bounded bound=ops=6_shape_(cap,n1,slice_len,truncate_to,advance)=(0,17,2,16,20)_values_symbolic fns=BufferBuilder::append,BufferBuilder::append_n,BufferBuilder::append_slice,BufferBuilder::truncate,BufferBuilder::advance,BufferBuilder::finish tier=thorough timeout=400 note=not_confirmed_under_load
+inst!(bufb_i32_0_17_2_16_20, 43, seq_bb::<0, 17, 2, 16, 20>());
+
+fn seq_bb2<const K1: usize, const Z: usize, const K2: usize, const K3: usize, const R: usize>() {
+    let s1: [i32; K1] = kani::any();
+    let s2: [i32; K2] = kani::any();
+    let s3: [i32; K3] = kani::any();
+    let mut m = Model::new();
+    let mut b: BufferBuilder<i32> = s1.iter().copied().collect(); m.push_slice(&s1);
+    check(&b, &m);
+    b.append_n_zeroed(Z); m.push_n(Z, 0);
+    unsafe { b.append_trusted_len_iter(s2.iter().copied()) }; m.push_slice(&s2);
+    check(&b, &m);
+    b.extend(s3.iter().copied()); m.push_slice(&s3);
+    b.reserve(R);
+    assert!(b.capacity() >= m.n + R);
+    check(&b, &m); // reserve does not change the contents
+    let out: Buffer = b.build();
+    assert!(out.len() == 4 * m.n);
+    if m.n > 0 {
+        let i: usize = kani::any();
+        kani::assume(i < m.n);
+        let s = out.as_slice();
+        assert!(i32::from_le_bytes([s[4 * i], s[4 * i + 1], s[4 * i + 2], s[4 * i + 3]]) == m.v[i]);
+        kani::cover!(m.v[i] == -1 && i >= K1 + Z);
+    }
+    kani::cover!(out.len() == 4 * (K1 + Z + K2 + K3));
+}
+// Contract (C01) BufferBuilder::<i32>::{from_iter, append_n_zeroed, append_trusted_len_iter, extend,
+// reserve, capacity, len, as_slice, build}: collecting s1, then append_n_zeroed(z),
+// append_trusted_len_iter(s2), extend(s3), reserve(r) gives observably the Vec<i32>
+// s1 ++ [0; z] ++ s2 ++ s3 (all values symbolic), capacity() >= len + r, and build returns exactly
+// 4*len bytes holding those values in little-endian order.
+// @unit name=bufb_i32_iter_3_2_4_1_50 props=C01 kind=bounded bound=ops=5_shape_(k1,zeroed,k2,k3,reserve)=(3,2,4,1,50)_values_symbolic fns=BufferBuilder::from_iter,BufferBuilder::append_n_zeroed,BufferBuilder::append_trusted_len_iter,BufferBuilder::extend,BufferBuilder::reserve,BufferBuilder::capacity,BufferBuilder::len,BufferBuilder::build tier=thorough timeout=400 note=not_confirmed_under_load
+inst!(bufb_i32_iter_3_2_4_1_50, 14, seq_bb2::<3, 2, 4, 1, 50>());
+// @unit name=bufb_i32_iter_0_0_0_0_0 props=C01 kind=bounded bound=ops=5_shape_(k1,zeroed,k2,k3,reserve)=(0,0,0,0,0)_values_symbolic fns=BufferBuilder::from_iter,BufferBuilder::append_n_zeroed,BufferBuilder::append_trusted_len_iter,BufferBuilder::extend,BufferBuilder::reserve,BufferBuilder::capacity,BufferBuilder::len,BufferBuilder::build tier=thorough timeout=400 note=not_confirmed_under_load
+inst!(bufb_i32_iter_0_0_0_0_0, 12, seq_bb2::<0, 0, 0, 0, 0>());
+// @unit name=bufb_i32_iter_17_1_2_16_3 props=C01 kind=bounded bound=ops=5_shape_(k1,zeroed,k2,k3,reserve)=(17,1,2,16,3)_values_symbolic fns=BufferBuilder::from_iter,BufferBuilder::append_n_zeroed,BufferBuilder::append_trusted_len_iter,BufferBuilder::extend,BufferBuilder::reserve,BufferBuilder::capacity,BufferBuilder::len,BufferBuilder::build tier=thorough timeout=400 note=not_confirmed_under_load
+inst!(bufb_i32_iter_17_1_2_16_3, 40, seq_bb2::<17, 1, 2, 16, 3>());
+
+fn seq_bb_from_vec<const K: usize>() {
+    let s: [i32; K] = kani::any();
+    let x: i32 = kani::any();
+    let mut m = Model::new();
+    let mut b = BufferBuilder::<i32>::from(s.to_vec()); m.push_slice(&s);
+    check(&b, &m);
+    b.append(x); m.push(x);
+    check(&b, &m);
+    let mut d = BufferBuilder::<i32>::default();
+    assert!(d.len() == 0 && d.is_empty());
+    d.append(x);
+    assert!(d.len() == 1 && d.as_slice()[0] == x);
+    if K > 0 {
+        let j: usize = kani::any();
+        kani::assume(j < K);
+        b.as_slice_mut()[j] = x; m.v[j] = x;
+        check(&b, &m);
+    }
+    check_finish(&mut b, &m);
+}
+// Contract (C01) BufferBuilder::<i32>::{from(Vec), default, as_slice_mut}: from(vec) holds exactly the
+// vector's values and keeps accepting appends; default() is empty; a value written through
+// as_slice_mut is the value read back (all others unchanged); finish returns the model bytes.
+// @unit name=bufb_i32_from_vec_5 props=C01 kind=bounded bound=shape_vec_len=5_values_symbolic fns=BufferBuilder::from,BufferBuilder::default,BufferBuilder::as_slice_mut,BufferBuilder::as_slice tier=thorough timeout=400 note=not_confirmed_under_load
+inst!(bufb_i32_from_vec_5, 12, seq_bb_from_vec::<5>());
+// @unit name=bufb_i32_from_vec_0 props=C01 kind=bounded bound=shape_vec_len=0_values_symbolic fns=BufferBuilder::from,BufferBuilder::default,BufferBuilder::as_slice_mut,BufferBuilder::as_slice tier=thorough timeout=400 note=not_confirmed_under_load
+inst!(bufb_i32_from_vec_0, 12, seq_bb_from_vec::<0>());
+// @unit name=bufb_i32_from_vec_17 props=C01 kind=bounded bound=shape_vec_len=17_values_symbolic fns=BufferBuilder::from,BufferBuilder::default,BufferBuilder::as_slice_mut,BufferBuilder::as_slice tier=thorough timeout=400 note=not_confirmed_under_load
+inst!(bufb_i32_from_vec_17, 21, seq_bb_from_vec::<17>());
